@@ -108,6 +108,12 @@ func scriptedPolicy(shapes []int, endLater, moreFalse bool) func(*sim.ScanCtx) s
 		case 5:
 			ch.Rows = one
 			ch.MarkLastPartial = true
+		case 6:
+			ch.Rows = one
+			if x.NextRowCells > 1 {
+				ch.SplitFirst = []int{1, x.NextRowCells - 1}
+				ch.EmptyFragment = true
+			}
 		}
 		return ch
 	}
@@ -115,7 +121,7 @@ func scriptedPolicy(shapes []int, endLater, moreFalse bool) func(*sim.ScanCtx) s
 
 // c06Enumerate runs the small-scope exhaustive part: 3 rows x 2 cells, 3
 // layouts, all range shapes in both directions, partial results on/off, every
-// chunk script of length 3 over 6 shapes x 2 x 2 flags. stride > 1 samples it.
+// chunk script of length 3 over 7 shapes x 2 x 2 flags. stride > 1 samples it.
 func c06Enumerate(c *fw.Ctx, stride int) {
 	rows := []string{"a", "b", "c"}
 	layouts := [][]string{nil, {"b"}, {"b", "c"}}
@@ -130,7 +136,7 @@ func c06Enumerate(c *fw.Ctx, stride int) {
 			}
 			for _, rg := range ranges {
 				for _, partials := range []bool{false, true} {
-					for script := 0; script < 216; script++ {
+					for script := 0; script < 343; script++ {
 						for flags := 0; flags < 4; flags++ {
 							i++
 							if (i/stride)%c.NBatches != c.Batch || i%stride != 0 {
@@ -138,7 +144,7 @@ func c06Enumerate(c *fw.Ctx, stride int) {
 							}
 							sc := scanCase{Seed: int64(i), Rows: rows, CellsPer: []int{2, 2, 2}, Bounds: bounds, Start: rg[0], Stop: rg[1],
 								Reversed: dir == 1, NumRows: 0, Partials: partials, Servers: 1}
-							shapes := []int{script % 6, script / 6 % 6, script / 36}
+							shapes := []int{script % 7, script / 7 % 7, script / 49}
 							id := fmt.Sprintf("enum-%d", i)
 							if i%2000 == 0 {
 								c.Begin(id, sc)
